@@ -65,6 +65,19 @@ Theorem C13_mount_then_local : forall (cwd : bstr) (keys : list bstr) (path k re
   exists rest, comps q = comps base ++ rest /\ Forall normal rest.
 Proof. exact (mount_then_local byte_slash_dot). Qed.
 
+(* Over the lifetime of one virtual OS: a lookup is decided by the mount table, the path and the directory set
+   by the LAST Chdir (or the initial one) - earlier lookups and earlier working directories leave no trace. *)
+Theorem C13_history_memoryless : forall (keys : list bstr) (cwd0 : bstr) before (d : bstr) between (p : bstr),
+  forallb is_use between = true ->
+  exists earlier,
+    vrun keys cwd0 (before ++ VChdir d :: between ++ [VUse p]) = earlier ++ [find_mount d keys p].
+Proof. exact history_memoryless. Qed.
+
+Theorem C13_history_initial : forall (keys : list bstr) (cwd0 : bstr) between (p : bstr),
+  forallb is_use between = true ->
+  exists earlier, vrun keys cwd0 (between ++ [VUse p]) = earlier ++ [find_mount cwd0 keys p].
+Proof. exact history_initial. Qed.
+
 (* Non-vacuity: the hypotheses are met by concrete layouts, and the witness of the repaired defect
    (mount "/tmp", path "/tmpfoo") is refused by the model of the repaired code. *)
 Definition s (l : list N) := l.
